@@ -29,7 +29,7 @@ from beancount.parser.grammar import ValueType  # noqa: E402
 
 D = decimal.Decimal
 EXTRA_TARGETS = ['Proofs/RegistryTie.vo']
-TMP = '/tmp/C11'
+TMP = '/tmp/C11/ledgers'
 
 ASSUMPTIONS = [
     'the property starts from the entries the connection holds: Beancount\'s parser, booking, padding and '
@@ -828,6 +828,41 @@ def compare_hashed(obs, model, keys, cols_by_table):
     return bad
 
 
+def pretty(c):
+    """Readable rendering of a canonical cell (for violation summaries)."""
+    try:
+        t = c[0]
+        if t == 0:
+            return 'NULL'
+        if t == 1:
+            return f'<{ERR.get(c[1], c[1])}>'
+        if t == 2:
+            return repr(d_str(c[1]))
+        if t in (3,):
+            return str(c[1])
+        if t == 4:
+            return datetime.date.fromordinal(c[1]).isoformat()
+        if t == 5:
+            return f'Decimal({str(d_dec(c[1]))!r})'
+        if t == 6:
+            return str(bool(c[1]))
+        if t == 7:
+            return '{' + ', '.join(repr(d_str(x)) for x in c[1]) + '}'
+        if t == 8:
+            return '[' + ', '.join(repr(d_str(x)) for x in c[1]) + ']'
+        if t == 9:
+            return str(d_amount(c[1]))
+        if t == 10:
+            return f'Position({d_amount(c[1])}, {d_cost(c[2][0]) if c[2] else None})'
+        if t == 11:
+            return '{' + ', '.join(f'{d_str(k)!r}: {pretty(v)}' for k, v in c[1]) + '}'
+        if t == 14:
+            return 'Inventory(' + ', '.join(f'{d_amount(u)} {{{d_cost(co[0]) if co else ""}}}' for u, co in c[1]) + ')'
+    except Exception:  # noqa: BLE001
+        pass
+    return str(c)
+
+
 def expected_column(cells):
     """Model cells of one column -> what a SELECT of that column must give: the exception when one row raises."""
     for c in cells:
@@ -850,8 +885,8 @@ def compare_full(obs, model, keys, cols_by_table):
             row = None
             if isinstance(g, list) and isinstance(exp, list):
                 row = next((i for i, (a, b) in enumerate(zip(g, exp)) if a != b), min(len(g), len(exp)))
-                diffs[w] = (f'{len(g)} rows, row {row}: {g[row] if row < len(g) else "<absent>"}',
-                            f'{len(exp)} rows, row {row}: {exp[row] if row < len(exp) else "<absent>"}')
+                diffs[w] = (f'{len(g)} rows, row {row}: {pretty(g[row]) if row < len(g) else "<absent>"}',
+                            f'{len(exp)} rows, row {row}: {pretty(exp[row]) if row < len(exp) else "<absent>"}')
             else:
                 diffs[w] = (str(g)[:400], str(exp)[:400])
     for ws, rows in list(zip(tw, mtables)) + list(zip(mw, mmetas)):
@@ -901,6 +936,12 @@ def shrink_case(case, where):
         return [where in d for d, _ in eval_cases(cands, tag='c11s')]
     if case['mode'] == 'constructed':
         small = ddmin_batch(case['entries'], lambda cs: still([dict(case, entries=c) for c in cs]))
+        for i, e in enumerate(small):      # then postings of each remaining transaction
+            if isinstance(e, data.Transaction) and len(e.postings) > 1:
+                def with_postings(ps, i=i, e=e):
+                    return dict(case, entries=small[:i] + [e._replace(postings=list(ps))] + small[i + 1:])
+                ps = ddmin_batch(e.postings, lambda cs: still([with_postings(c) for c in cs]), max_rounds=10)
+                small = small[:i] + [e._replace(postings=list(ps))] + small[i + 1:]
         return dict(case, entries=small)
     lines = case['text'].split('\n')
     small = ddmin_batch(lines, lambda cs: still([dict(case, text='\n'.join(c) + '\n') for c in cs]), max_rounds=25)
